@@ -185,7 +185,14 @@ class HistoryMonitor(Monitor):
                 self.check_occupancy(ctx)
 
     def on_get(self, ctx, handler):
-        pass
+        # C08, second sentence: the entry the scheduler hands out must be the handler's current candidate; an entry with
+        # another time is a candidate that survived although it had been trashed or superseded
+        t = getattr(ctx, "last_returned_time", None)
+        want = self.cand_time.get(id(handler))
+        if t is not None and want is not None and t != want and self.kind.get(id(handler)) == "interaction":
+            self.verdict("C08", "stale-candidate-returned", "the scheduler returned an event of %s at %r, but the "
+                         "handler's current candidate is at %r: a trashed or superseded candidate survived"
+                         % (handler.__class__.__name__, t, want), ctx)
 
     def on_commit(self, ctx, handler, before, after, out_ids):
         t = self.cand_time.get(id(handler))
